@@ -1,5 +1,12 @@
-from . import arrayhist
+from . import arrayhist, raggedhist
+from ..common import Run
 
 
 def run(tier, seed):
-    return arrayhist.run_check('C08', tier, seed, 'data+meta')
+    run = Run('C08', tier, seed, 'model_checking')
+    for family in ('data', 'meta'):
+        arrayhist.run_family(run, 'C08', tier, seed, family)
+    run.cov['rule'] = ('Array: every macro-edge of the TLC state graph of spec/Array.tla (data and metadata alphabets) is '
+                       'executed on the real code; README bytes must equal the text regenerated from a fresh handle and '
+                       'the parsed stamp must equal the spec stamp.')
+    return raggedhist.run_check('C08', tier, seed, 'readme+data', run=run)
